@@ -5,7 +5,7 @@ import re
 from . import e2e_gen as G, e2e_run as R, e2e_check as C, e2e_eval as EV
 from .common import WIRE, GOENV, run, scratch, rmtree, seed
 
-KINDS = ["none", "none", "missing", "dup", "unused", "neederr", "needcleanup", "badset"]
+KINDS = ["none", "none", "missing", "dup", "unused", "neederr", "needcleanup", "badset", "aliasbad", "aliasgood"]
 
 
 def expected_show(u, prog, s_idx):
@@ -94,12 +94,20 @@ def run_c19(rep, tier):
             p.c19 = kind
             if kind == "badset":
                 p.extra_decls.append("var ExtraBadSet = wire.NewSet(wire.Value(1), wire.Value(2))")
+            elif kind in ("aliasbad", "aliasgood"):
+                # a package that declares a provider-set variable as an alias of another package's set and
+                # does not itself import wire
+                p.extra_decls.append("var AliasedBad = wire.NewSet(wire.Value(1), wire.Value(2))" if kind == "aliasbad"
+                                     else "var AliasedGood = wire.NewSet(wire.Value(1), wire.Value(\"s\"))")
+                p.alias_pkg = ("package al\n\nimport \"%s\"\n\nvar Set = %s.%s\n" % (
+                    p.path("app"), p.qual("app") if False else p.pkgmap["app"]["name"], "AliasedBad" if kind == "aliasbad" else "AliasedGood"))
             elif kind != "none":
                 note = G.plant(rng, p.units[0], kind)
                 if not note:
                     p.c19 = "none"
         R.build_tools()
-        R.write_module(root, progs)
+        extra = {"%s/al/al.go" % p.name: p.alias_pkg for p in progs if getattr(p, "alias_pkg", None)}
+        R.write_module(root, progs, extra)
         from concurrent.futures import ThreadPoolExecutor
 
         def one(p):
@@ -107,10 +115,14 @@ def run_c19(rep, tier):
             g = run([WIRE, "gen", pat], cwd=root, env=dict(GOENV), timeout=120)
             c = run([WIRE, "check", pat], cwd=root, env=dict(GOENV), timeout=120)
             s = run([WIRE, "show", pat], cwd=root, env=dict(GOENV), timeout=120)
-            return g, c, s
+            a = None
+            if getattr(p, "alias_pkg", None):
+                a = (run([WIRE, "check", "./%s/al" % p.name], cwd=root, env=dict(GOENV), timeout=120),
+                     run([WIRE, "show", "./%s/al" % p.name], cwd=root, env=dict(GOENV), timeout=120))
+            return g, c, s, a
         with ThreadPoolExecutor(max_workers=12) as ex:
             results = list(ex.map(one, progs))
-        for p, (g, c, s) in zip(progs, results):
+        for p, (g, c, s, al) in zip(progs, results):
             stats["programs"] += 1
             rep.evaluations += 1
             grc, gout, gerr = g
@@ -122,7 +134,14 @@ def run_c19(rep, tier):
             for nm, e in (("gen", gerr), ("check", cerr), ("show", serr)):
                 if "panic:" in e or "goroutine " in e:
                     why.append("wire %s panicked: %s" % (nm, e[-300:]))
-            want_check_ok = (grc == 0) and p.c19 != "badset"
+            want_check_ok = (grc == 0) and p.c19 not in ("badset", "aliasbad")
+            if al is not None:
+                (arc, _, aerr), (src2, sout2, _) = al
+                if (arc == 0) != (p.c19 == "aliasgood"):
+                    why.append("check on the package that only aliases %s provider set exits %d" % (
+                        "an ill-formed" if p.c19 == "aliasbad" else "a well-formed", arc))
+                if p.c19 == "aliasgood" and ('/al".Set' not in sout2):
+                    why.append("show does not list the aliased provider set of package al: %r" % sout2[:200])
             if (crc == 0) != want_check_ok:
                 why.append("check exit %d but gen exit %d (planted: %s): check must succeed exactly when every injector generates and every "
                            "top-level set is well-formed" % (crc, grc, p.c19))
